@@ -164,7 +164,8 @@ def forward_checks(rep, fnd, pid, tier):
                         n_ok += 1
     # ---- many channels / larger batches: the channel bookkeeping has to be band-major over ALL C (stacked scattering layers
     # see 21, 147, ... channels), so a few wide inputs are compared channel by channel as well
-    wide = [("ScatLayer", 17, 2), ("ScatLayer", 40, 1), ("ScatLayer", 2, 5), ("ScatLayerj2", 17, 1), ("ScatLayerj2", 3, 3)]
+    wide = [("ScatLayer", 17, 2), ("ScatLayer", 40, 1), ("ScatLayer", 2, 5), ("ScatLayerj2", 17, 1), ("ScatLayerj2", 3, 3),
+            ("ScatLayer", 67, 1), ("ScatLayerj2", 67, 1)]       # beyond a slab of 64 channels
     if tier != "quick":
         wide += [("ScatLayer", 147, 1), ("ScatLayerj2", 33, 2)]
     wide = [w + (8, 8) for w in wide] + [("ScatLayer", 3, 2, 132, 158), ("ScatLayerj2", 2, 1, 136, 72)]     # ... and large images
